@@ -1071,7 +1071,14 @@ func (t *objectType) createAttributesInfo() *attributesInfo {
 			attrs = append(attrs, attr)
 		}
 	}
-	return newAttributesInfo(attrs, nonOptSize, t.EqualityAttributes().Keys())
+	var equality []string
+	for tp := t; tp != nil; tp = tp.resolvedParent() {
+		if tp.equality != nil {
+			equality = t.EqualityAttributes().Keys()
+			break
+		}
+	}
+	return newAttributesInfo(attrs, nonOptSize, equality)
 }
 
 func (t *objectType) createInitType() *StructType {
